@@ -8,9 +8,9 @@
 
    Conventions: magic numbers are N (unbounded); the C types are modelled
    where they matter: `unsigned long` products in `_combinations` are reduced
-   mod 2^64, `unsigned int` subtraction mod 2^32, the `(int)` cast of
-   FFF_FLOOR is a partial function on [-2^31, 2^31) with the x86-64
-   out-of-range result (-2^31; ISO C: undefined) outside. *)
+   mod 2^64, `unsigned int` subtraction mod 2^32; doubles that hold exact
+   values (halving, floor) are modelled by Q.  (FFF_FLOOR and its (int) cast
+   are no longer used by fff_onesample_permute_signs since fix 6262c59.) *)
 From Coq Require Import List Bool ZArith NArith QArith Qround Lia.
 Import ListNotations.
 Close Scope Q_scope.
@@ -145,27 +145,19 @@ Definition nowrap (n k : nat) : Prop :=
    fff_onesample_permute_signs (fff_onesample_stat.c:1281-1298)
 
      m = magic;
-     for (i=0; i<n; i++) { aux = m/2; m = FFF_FLOOR(aux); aux -= m;
+     for (i=0; i<n; i++) { aux = m/2; m = floor(aux); aux -= m;
                            xx[i] = (aux > 0) ? -x[i] : x[i]; }
 
-   FFF_FLOOR(a) = ((a)>0.0 ? (int)(a) : (((int)(a)-a)!=0.0 ? (int)(a)-1 : (int)(a)))
-   Halving, (int)->double conversion and the subtraction are exact in binary
-   floating point (barring subnormals), so Q is an exact model of the doubles. *)
-Definition INT_MIN : Z := (- 2 ^ 31)%Z.
-Definition INT_MAX1 : Z := (2 ^ 31)%Z.
-
-Definition trunc0 (q : Q) : Z := Z.quot (Qnum q) (Zpos (Qden q)).
-
-(* (int)(double): truncation toward zero when representable; otherwise the
-   x86-64 cvttsd2si "integer indefinite" value (undefined behaviour in ISO C) *)
-Definition cast_int (q : Q) : Z :=
-  let t := trunc0 q in
-  if ((INT_MIN <=? t) && (t <? INT_MAX1))%Z then t else INT_MIN.
-
-Definition fff_floor (a : Q) : Z :=
-  if Qlt_le_dec 0 a then cast_int a
-  else if Qeq_bool (inject_Z (cast_int a) - a) 0 then cast_int a
-       else (cast_int a - 1)%Z.
+   (libm floor on doubles.)  For every finite double m, m/2 is exact unless it
+   underflows (|m| < 2^-1021), floor(aux) is exact and so is aux - floor(aux)
+   (a value in [0,1) on aux's own grid).  Q with the true floor `Qfloor` is
+   therefore an exact model of the doubles for EVERY finite magic that is 0
+   or has |magic| >= 2^-1021: integers, non-integers, negative values and
+   values >= 2^53 (which are even integers) alike.  What the doubles restrict
+   is only WHICH magics exist: every integer of magnitude <= 2^53 is a
+   double, 2^53 + 1 is not (double_exact_int).  Not modelled: inf, nan,
+   subnormal magics. *)
+Definition double_exact_int (z : Z) : Prop := (Z.abs z <= 2 ^ 53)%Z.
 
 (* flip flags for n values *)
 Fixpoint sign_flags (n : nat) (m : Q) : list bool :=
@@ -173,7 +165,7 @@ Fixpoint sign_flags (n : nat) (m : Q) : list bool :=
   | O => []
   | S n' =>
       let aux := (m / 2)%Q in
-      let m' := inject_Z (fff_floor aux) in
+      let m' := inject_Z (Qfloor aux) in
       let d := (aux - m')%Q in
       (if Qlt_le_dec 0 d then true else false) :: sign_flags n' m'
   end.
@@ -187,7 +179,8 @@ Fixpoint apply_flags (fl : list bool) (x : list Q) : list Q :=
 Definition fff_onesample_permute_signs (x : list Q) (magic : Q) : list Q :=
   apply_flags (sign_flags (length x) magic) x.
 
-(* specification for integer magics: flag i = bit i *)
+(* specification for integer magics: flag i = binary digit i (two's
+   complement digits for a negative magic) *)
 Definition bit_flags (n : nat) (z : Z) : list bool :=
   map (fun i => Z.testbit z (Z.of_nat i)) (seq 0 n).
 
